@@ -146,9 +146,10 @@ type Result struct {
 	PanicKind string `json:"panic_kind,omitempty"` // runtime | budget | other
 	Stage     string `json:"stage,omitempty"`      // create | validate | tojson | tojsonindent | title
 
-	RecoveredRuntime     int    `json:"recovered_runtime,omitempty"`
-	RecoveredRuntimeSite int    `json:"recovered_runtime_site,omitempty"`
-	RecoveredRuntimeMsg  string `json:"recovered_runtime_msg,omitempty"`
+	RecoveredRuntime       int    `json:"recovered_runtime,omitempty"`
+	RecoveredRuntimeSite   int    `json:"recovered_runtime_site,omitempty"`
+	RecoveredRuntimeMsg    string `json:"recovered_runtime_msg,omitempty"`
+	RecoveredRuntimeOrigin string `json:"recovered_runtime_origin,omitempty"`
 
 	Ticks   uint64 `json:"ticks"`
 	SoftHit bool   `json:"soft_hit,omitempty"`
@@ -346,8 +347,9 @@ func runLibrary(root string, rootContent []byte, o Opts) (res Result) {
 			res.Stage = stage
 		}
 		res.Ticks, res.SoftHit = simrt.Ticks()
-		n, site, msg := simrt.RecoveredRuntimeErrors()
+		n, site, msg, origin := simrt.RecoveredRuntimeErrors()
 		res.RecoveredRuntime, res.RecoveredRuntimeSite, res.RecoveredRuntimeMsg = n, int(site), msg
+		res.RecoveredRuntimeOrigin = strings.TrimPrefix(origin, "github.com/jsightapi/")
 		if simrt.FS != nil {
 			res.FSCalls = simrt.FS.Calls
 		}
@@ -419,8 +421,9 @@ func execute(p *Project, o Opts, env Env, plan []simrt.PlannedFault, seed uint64
 }
 
 const (
-	softFactor = 20000
-	hardFactor = 2000000
+	// steps per project byte (+200): the observed worst case over corpus and generator is < 100
+	softFactor = 2000
+	hardFactor = 200000
 )
 
 func init() {
